@@ -5,6 +5,7 @@ CONSTANTS
   Builder = "old"
   ExcludeTouch = FALSE
   U = 1
+  EmitOn = FALSE
   TruncEnd = FALSE
   ExcludeZeroPairs = FALSE
 INVARIANT TotalOrder
